@@ -1,6 +1,6 @@
 /-
   Proofs/EnvRunOnce — the end-of-run stamps are written at most once per run (for C10), and the
-  legacy chain of Model/EnvLegacy.lean with its switch ON is the model of the code as it is.
+  legacy chain of Model/EnvLegacy.lean with its switches ON is the model of the code as it is.
 -/
 import ControlModel.Proofs.EnvRun
 import ControlModel.Model.EnvLegacy
@@ -13,11 +13,34 @@ set_option linter.unusedSimpArgs false
 theorem bkAfterOf_code : bkAfterOf codeRunCfg = bkAfter := by
   funext env e f; simp [bkAfterOf, codeRunCfg]
 
+theorem weightsForOf_code : weightsForOf codeRunCfg = weightsFor := by
+  funext env hooks m p; simp [weightsForOf, codeRunCfg]
+
+theorem handleHooksOf_code : handleHooksOf codeRunCfg = handleHooks := by
+  funext env hooks m p; unfold handleHooksOf handleHooks; rw [weightsForOf_code]
+
+theorem beforeEventOf_code : beforeEventOf codeRunCfg = beforeEvent := by
+  funext env hooks e r; unfold beforeEventOf beforeEvent; rw [handleHooksOf_code]
+
+theorem leaveStateOf_code : leaveStateOf codeRunCfg = leaveState := by
+  funext env hooks e b; unfold leaveStateOf leaveState; rw [handleHooksOf_code]
+
+theorem enterStateOf_code : enterStateOf codeRunCfg = enterState := by
+  funext env hooks; unfold enterStateOf enterState; rw [handleHooksOf_code]
+
+theorem teardownOf_code : teardownOf codeRunCfg = teardown := by
+  funext env hooks f r1 r2 n; unfold teardownOf teardown; rw [handleHooksOf_code]
+
 theorem afterEventOf_code : afterEventOf codeRunCfg = afterEvent := by
-  funext env hooks e errs; unfold afterEventOf afterEvent; rw [bkAfterOf_code]
+  funext env hooks e errs; unfold afterEventOf afterEvent; rw [bkAfterOf_code, handleHooksOf_code]
 
 theorem fsmEventOf_code : fsmEventOf codeRunCfg = fsmEvent := by
-  funext env hooks e b r; unfold fsmEventOf fsmEvent; rw [afterEventOf_code]; rfl
+  funext env hooks e b r; unfold fsmEventOf fsmEvent
+  rw [afterEventOf_code, beforeEventOf_code, leaveStateOf_code, enterStateOf_code]; rfl
+
+/-- The C10 legacy configuration leaves the passes alone: its `handleHooksOf` is `handleHooks`. -/
+theorem handleHooksOf_legacyRun : handleHooksOf legacyRunCfg = handleHooks := by
+  funext env hooks m p; simp [handleHooksOf, handleHooks, weightsForOf, legacyRunCfg]
 
 theorem controlApiOf_code : controlApiOf codeRunCfg = controlApi := by
   funext env hooks e b r; unfold controlApiOf controlApi tryTransition; rw [fsmEventOf_code]; rfl
@@ -25,7 +48,7 @@ theorem controlApiOf_code : controlApiOf codeRunCfg = controlApi := by
 /-- The configurable chain with the switch ON is the model of the code as it is. -/
 theorem stepOf_code : stepOf codeRunCfg = step := by
   funext hooks n env q
-  cases q <;> simp only [stepOf, step, tryTransition, fsmEventOf_code, controlApiOf_code]
+  cases q <;> simp only [stepOf, step, tryTransition, fsmEventOf_code, controlApiOf_code, teardownOf_code]
 
 theorem finalEnvOf_code : finalEnvOf codeRunCfg = finalEnv := by
   funext hooks n env qs; unfold finalEnvOf finalEnv; rw [stepOf_code]
